@@ -51,6 +51,75 @@ type syncAnalyzer struct {
 	depth   int
 	methods map[string]*ast.FuncDecl // methods of the target type (and its embedded types) by name
 	reentry []string                 // sites where a mutex is acquired while the same goroutine already holds it
+	blocked []string                 // sites where a channel operation that can block is made while a mutex is held
+	nonblk  int                      // > 0 inside the comm clauses of a select that has a default branch
+}
+
+// heldMutexes lists the real mutexes of a lock state (the constructor marker is not one)
+func heldMutexes(st lockState) []string {
+	var ks []string
+	for k := range st.held {
+		if k != initKey {
+			ks = append(ks, k+" ("+st.held[k]+")")
+		}
+	}
+	sort.Strings(ks)
+	return ks
+}
+
+func (a *syncAnalyzer) noteBlocking(pos token.Pos, fn, what string, st lockState) {
+	if ks := heldMutexes(st); len(ks) > 0 && a.nonblk == 0 {
+		p := fset.Position(pos)
+		a.blocked = append(a.blocked, fmt.Sprintf("%s:%d %s: %s while holding %s", filepath.Base(p.Filename), p.Line, fn, what, strings.Join(ks, ", ")))
+	}
+}
+
+// blocks reports whether a function's body contains a channel send or receive outside a select with a
+// default branch, directly or through calls within the package (function literals excluded)
+func (a *syncAnalyzer) blocks(fd *ast.FuncDecl, depth int) bool {
+	if fd == nil || fd.Body == nil || depth > 3 {
+		return false
+	}
+	recv := map[string]bool{}
+	if fd.Recv != nil && len(fd.Recv.List) == 1 && len(fd.Recv.List[0].Names) == 1 {
+		recv[fd.Recv.List[0].Names[0].Name] = true
+	}
+	found := false
+	var visit func(n ast.Node) bool
+	visit = func(n ast.Node) bool {
+		switch x := n.(type) {
+		case *ast.FuncLit:
+			return false
+		case *ast.SelectStmt:
+			hasDefault := false
+			for _, c := range x.Body.List {
+				if cc, ok := c.(*ast.CommClause); ok && cc.Comm == nil {
+					hasDefault = true
+				}
+			}
+			if hasDefault {
+				for _, c := range x.Body.List { // only the bodies can block
+					for _, b := range c.(*ast.CommClause).Body {
+						ast.Inspect(b, visit)
+					}
+				}
+				return false
+			}
+		case *ast.SendStmt:
+			found = true
+		case *ast.UnaryExpr:
+			if x.Op == token.ARROW {
+				found = true
+			}
+		case *ast.CallExpr:
+			if callee := a.calleeOf(x, recv); callee != nil && callee != fd && a.blocks(callee, depth+1) {
+				found = true
+			}
+		}
+		return !found
+	}
+	ast.Inspect(fd.Body, visit)
+	return found
 }
 
 // acquires lists the mutexes a function's body locks (Lock or RLock), directly or through calls to
@@ -312,6 +381,9 @@ func (a *syncAnalyzer) scanExpr(e ast.Node, recv map[string]bool, st lockState, 
 				for m := range a.acquires(callee, 0) {
 					a.noteReentry(x.Pos(), fn, m, "call of "+callee.Name.Name+", which locks", st)
 				}
+				if a.blocks(callee, 0) {
+					a.noteBlocking(x.Pos(), fn, "call of "+callee.Name.Name+", which sends or receives on a channel,", st)
+				}
 			}
 			if id, ok := x.Fun.(*ast.Ident); ok && a.depth < 3 {
 				if fd, ok := a.funcs[id.Name]; ok && !ast.IsExported(id.Name) && fd.Body != nil && a.tgt.typ == "" {
@@ -319,6 +391,10 @@ func (a *syncAnalyzer) scanExpr(e ast.Node, recv map[string]bool, st lockState, 
 					a.walkBlock(fd.Body.List, recv, st.copy(), fn+">"+id.Name)
 					a.depth--
 				}
+			}
+		case *ast.UnaryExpr:
+			if x.Op == token.ARROW {
+				a.noteBlocking(x.Pos(), fn, "channel receive", st)
 			}
 		case *ast.CompositeLit:
 			if a.tgt.typ != "" && strings.TrimPrefix(typeString(x.Type), "*") == a.tgt.typ {
@@ -462,7 +538,28 @@ func (a *syncAnalyzer) walkStmt(s ast.Stmt, recv map[string]bool, st lockState, 
 	case *ast.TypeSwitchStmt:
 		a.walkBlock(x.Body.List, recv, st.copy(), fn)
 	case *ast.SelectStmt:
-		a.walkBlock(x.Body.List, recv, st.copy(), fn)
+		hasDefault := false
+		for _, c := range x.Body.List {
+			if cc, ok := c.(*ast.CommClause); ok && cc.Comm == nil {
+				hasDefault = true
+			}
+		}
+		if hasDefault {
+			a.nonblk++
+		}
+		for _, c := range x.Body.List {
+			if cc, ok := c.(*ast.CommClause); ok {
+				a.walkStmt(cc.Comm, recv, st, fn)
+			}
+		}
+		if hasDefault {
+			a.nonblk--
+		}
+		for _, c := range x.Body.List {
+			if cc, ok := c.(*ast.CommClause); ok {
+				a.walkBlock(cc.Body, recv, st.copy(), fn)
+			}
+		}
 	case *ast.CaseClause:
 		for _, e := range x.List {
 			a.scanExpr(e, recv, st, fn, nil)
@@ -476,6 +573,7 @@ func (a *syncAnalyzer) walkStmt(s ast.Stmt, recv map[string]bool, st lockState, 
 			a.scanExpr(r, recv, st, fn, nil)
 		}
 	case *ast.SendStmt:
+		a.noteBlocking(x.Pos(), fn, "channel send", st)
 		a.scanExpr(x.Chan, recv, st, fn, nil)
 		a.scanExpr(x.Value, recv, st, fn, nil)
 	case *ast.LabeledStmt:
@@ -531,14 +629,16 @@ func init() {
 			{dir: "pkg/logger", globals: []string{"logger", "logBuffer"}, mutexes: []string{"mux"}},
 		}
 		var sites []syncSite
-		var reentry []string
+		var reentry, blocked []string
 		for _, t := range targets {
 			a := newSyncAnalyzer(t)
 			a.run()
 			sites = append(sites, a.sites...)
 			reentry = append(reentry, a.reentry...)
+			blocked = append(blocked, a.blocked...)
 		}
 		sort.Strings(reentry)
+		sort.Strings(blocked)
 		locIdx, mIdx := map[string]int{}, map[string]int{}
 		var locs, muts []string
 		for _, s := range sites {
@@ -585,6 +685,7 @@ func init() {
 			rows = append(rows, fmt.Sprintf("  {| s_loc := %d; s_write := %v; s_prot := %s |} (* %s  %s  %s *)", locIdx[s.loc], s.write, p, s.loc, s.where, s.prot))
 		}
 		g.sb.WriteString("Definition sync_table : list site := [\n" + strings.Join(rows, ";\n") + "\n].\n")
+		g.def("sync_blocking_under_lock", "list string", q(blocked), "channel sends / receives that can block (not in a select with a default branch), directly or through a call within the package, made while a mutex is held")
 		g.def("sync_reentrant", "list string", q(reentry), "places where a mutex is acquired (directly or through a call within the package) while the same goroutine holds it; sync.Mutex / RWMutex are not re-entrant")
 		gens = append(gens, g)
 	})
